@@ -23,14 +23,31 @@
   hostrange_join (hostlist.c)             Hostlist.hostrangeJoin                hostrange_join     C16
   cbuf_shrink (cbuf.c)                    (no-op premise of Cbuf.dropper)       cbuf_shrink        C13 C05
   cbuf_dropper (cbuf.c)                   Cbuf.dropper                          cbuf_dropper       C13 C05
+  cbuf_find_unread_line (cbuf.c)          Cbuf.findUnreadLine                   cbuf_find_unread_line  C13 C05 C06
   _thd_connect_timeout (dsh.c)            Dsh.Timed.killed, connecting part     thd_connect_timeout  C07
   _thd_command_timeout (dsh.c)            Dsh.Timed.killed, reading part        thd_command_timeout, wdog_decision  C07
   _dir_permission_error (mod.c)           Mod.dirOk                             dir_permission_error  C17
   find_host (rcmd.c)                      predicate of Opt.Rcmd.lookup          find_host, registry_lookup  C09
   find_rcmd_module (rcmd.c)               membership in Cfg.loaded              find_rcmd_module   C09
+  -- round 2b: fragments (the `if` condition / statement / loop body found by a regex inside a large function),
+  --           `switch`, recorded effects, `strtol` + `errno`
+  switch of _wdog (dsh.c)                 per-slot decision; Dsh.Timed.killed   wdog_slot, killed_is_wdog_slot  C07
+  test of _fwd_signal (dsh.c)             Sig.sStep .fwd (READING only)         fwd_signal_slot    C08
+  body of _cancel_pending_threads (dsh.c) Sig.cancelT / isPending               cancel_pending_slot  C08
+  switch of _list_slowthreads (dsh.c)     Sig.isListed                          list_slowthreads_slot  C08
+  _handle_sigint (dsh.c)                  Sig.sStep (.sigwait .int / .time)     handle_sigint      C08
+  _handle_sigtstp (dsh.c)                 Sig.sStep (.time at .tstpT)           handle_sigtstp     C08
+  -S loop body of dsh() (dsh.c)           Exit.aggLoop / aggregate              exit_agg_step, exit_aggregate  C11
+  3 file tests of _mod_load_dynamic_modules (mod.c)  Mod.fileOk                 mod_file_isreg, mod_file_owner, mod_file_mode, file_ok  C17
+  2 tests of _parse_single_range (hostlist.c)  Hostlist.rangeCheck              parse_range_order, parse_range_toobig  C01 C15
+  last test of hostrange_hn_within (hostlist.c)  Hostlist.hnMatch               hn_within_final    C16
+  string_to_int (opt.c)                   Opt.stringToInt (repaired, D5)        string_to_int      C18 C19
+  "piece ends the line" (wcoll.c)         Opt.Wcoll.chunksGo's newline rule     piece_continues    C10
+  name test of _sink (pcp_server.c)       Pcp.narrowNameOk                      sink_name_bad      C12
+  mode digit / read result of _sink       (octal digit; EOF or error)           sink_mode_digit_bad, sink_read_failed  C12
 
-  Translated but NOT yet bridged (the generated definitions exist and are re-generated; no theorem):
-  cbuf_find_unread_line (cbuf.c) vs Cbuf.findUnreadLine.
+  Translated but NOT yet bridged: pipecmd_format_arg (pipecmd.c) vs Exec.fmtLoop (Bridge/Pipecmd.lean says what
+  is missing).
 
   Not proved here: anything about functions outside the translator's subset (tools/c2lean.md lists the
   ones tried); that clang's AST, the translator and the libc models of C2Lean/Prelude.lean are right
@@ -39,8 +56,16 @@
 import PdshVerif.Bridge.Hostlist
 import PdshVerif.Bridge.Cbuf
 import PdshVerif.Bridge.Dsh
+import PdshVerif.Bridge.DshSignals
+import PdshVerif.Bridge.DshSignals2
+import PdshVerif.Bridge.DshExit
+import PdshVerif.Bridge.PcpServerName
+import PdshVerif.Bridge.Pipecmd
 import PdshVerif.Bridge.Mod
 import PdshVerif.Bridge.Rcmd
+import PdshVerif.Bridge.Opt
+import PdshVerif.Bridge.Wcoll
+import PdshVerif.Bridge.PcpServer
 
 namespace PdshVerif.Props.Bridge
 open PdshVerif
@@ -116,6 +141,12 @@ theorem cbuf_dropper (c : Cbuf) (len : Nat) (h : InC c) (hl : len ≤ c.used) :
     Gen.Fn.Cbuf.cbuf_dropper (toC c) (len : Int) = some ((len : Int), toC (dropper c len)) :=
   cbuf_dropper_bridge c len h hl
 
+theorem cbuf_find_unread_line (c : Cbuf) (hi : Inv c) (h : InC c) (fuel : Nat) (chars lines : Int)
+    (hc : IsInt chars) (hl : IsInt lines) (hf : c.size + 2 ≤ fuel) :
+    Gen.Fn.Cbuf.cbuf_find_unread_line fuel (toC c) chars lines =
+      some (((findUnreadLine c chars lines).1 : Int), ((findUnreadLine c chars lines).2 : Int)) :=
+  cbuf_find_unread_line_bridge c hi h fuel chars lines hc hl hf
+
 end cbuf
 
 /-! ### dsh.c -/
@@ -175,5 +206,140 @@ theorem loaded_contains (loaded : List Str) (t : Str) (hl : ∀ m ∈ loaded, By
   loaded_contains_bridge loaded t hl ht
 
 end rcmd
+
+/-! ### round 2b: fragments of large functions, `switch`, recorded effects, `strtol` + `errno` -/
+
+section dsh2
+open PdshVerif.Dsh.Timed PdshVerif.Gen.Fn.Dsh PdshVerif.Bridge.Dsh PdshVerif.Bridge.DshSignals PdshVerif.Bridge.DshSignals2 PdshVerif.Bridge.DshExit
+
+theorem wdog_slot (c : Cfg) (now tid : Nat) (h : Host) (hct : c.ct ≤ 2147483647) (hut : c.ut ≤ 2147483647)
+    (hs : h.start < 2 ^ 62) (hc : h.conn < 2 ^ 62) :
+    Gen.Fn.Dsh.wdog_slot (c.ct : Int) (c.ut : Int) (now : Int) (toCS h tid) =
+      some (if signalled c now h then [⟨"pthread_kill", [.int (tid : Int), .int 14]⟩] else []) :=
+  wdog_slot_bridge c now tid h hct hut hs hc
+
+theorem killed_is_wdog_slot (c : Cfg) (now : Nat) (h : Host) :
+    killed c now h = (h.ph != .rcmd && signalled c now h) :=
+  killed_wdog_slot c now h
+
+open PdshVerif.Dsh.Sig in
+theorem fwd_signal_slot (t : TS) : Gen.Fn.Dsh.fwd_signal_slot (slotOf t) = some (decide (t = .reading)) :=
+  fwd_signal_slot_bridge t
+
+open PdshVerif.Dsh.Sig in
+theorem cancel_pending_slot (t : TS) (n : Nat) (hn : n < 2147483647) :
+    Gen.Fn.Dsh.cancel_pending_slot (slotOf t) (n : Int) =
+      some (slotOf (cancelT t), ((n + (if isPending t then 1 else 0) : Nat) : Int)) :=
+  cancel_pending_slot_bridge t n hn
+
+open PdshVerif.Dsh.Sig in
+theorem list_slowthreads_slot (t : TS) (ct ut now now2 : Nat) (start conn ttl : Int)
+    (hct : ct ≤ 2147483647) (hut : ut ≤ 2147483647) (hn : now < 2 ^ 62) (hn2 : now2 < 2 ^ 62)
+    (hs : -(2 ^ 62) < start ∧ start < 2 ^ 62) (hc : -(2 ^ 62) < conn ∧ conn < 2 ^ 62) :
+    ∃ ttl' ev, Gen.Fn.Dsh.list_slowthreads_slot (ut : Int) 0 (ct : Int) (now : Int) (now2 : Int)
+        { slotOf t with start := start, connect := conn } ttl = some (ttl', ev) ∧
+      (ev ≠ [] ↔ isListed t = true) :=
+  list_slowthreads_slot_bridge t ct ut now now2 start conn ttl hct hut hn hn2 hs hc
+
+open PdshVerif.Dsh.Sig in
+theorem handle_sigint (batch : Bool) (now now2 last : Nat) (h1 : now < 2 ^ 62) (h2 : last < 2 ^ 62) :
+    ∃ last' ev, Gen.Fn.Dsh._handle_sigint (if batch then 1 else 0) false (now : Int) (now2 : Int) (last : Int) = some (last', ev) ∧
+      (last', names ev) =
+        (if batch then ((last : Int), ["_fwd_signal", "errx"])
+         else if now - last > INTR then ((now2 : Int), ["err", "err", "_list_slowthreads"])
+         else ((last : Int), ["_fwd_signal", "errx"])) :=
+  handle_sigint_bridge batch now now2 last h1 h2
+
+open PdshVerif.Dsh.Sig in
+theorem handle_sigtstp (now last : Nat) (h1 : now < 2 ^ 62) (h2 : last < 2 ^ 62) :
+    ∃ ev, Gen.Fn.Dsh._handle_sigtstp false (now : Int) (last : Int) = some ev ∧
+      names ev = (if now - last > INTR then ["raise"] else ["_cancel_pending_threads"]) :=
+  handle_sigtstp_bridge now last h1 h2
+
+open PdshVerif.Dsh.Exit in
+theorem exit_agg_step (fx : Fixes) (hd8 : fx.d8 = true) (hc : fx.canc = true) (rc : Int) (h : PdshVerif.Dsh.Exit.Host) :
+    Gen.Fn.Dsh.exit_agg_step (exitSlot h) rc = some (aggStep fx rc h) :=
+  exit_agg_step_bridge fx hd8 hc rc h
+
+open PdshVerif.Dsh.Exit in
+theorem exit_aggregate (fx : Fixes) (hd8 : fx.d8 = true) (hc : fx.canc = true) (hs : List PdshVerif.Dsh.Exit.Host) :
+    aggregate fx hs = hs.foldl (fun rc h => (Gen.Fn.Dsh.exit_agg_step (exitSlot h) rc).getD rc) 0 :=
+  exit_aggregate_bridge fx hd8 hc hs
+
+end dsh2
+
+section mod2
+open PdshVerif.Mod PdshVerif.Gen.Fn.Mod PdshVerif.Bridge.Mod
+
+theorem mod_file_isreg (st : FStat) : Gen.Fn.Mod.mod_file_isreg (toC st) = some (!isReg st.mode) :=
+  mod_file_isreg_bridge st
+
+theorem mod_file_owner (uid owner : Nat) (st : FStat) :
+    Gen.Fn.Mod.mod_file_owner uid (toC st) owner = some (!ownerOk uid owner st) :=
+  mod_file_owner_bridge uid owner st
+
+theorem mod_file_mode (st : FStat) : Gen.Fn.Mod.mod_file_mode (toC st) = some (st.mode &&& S_IWOTH != 0) :=
+  mod_file_mode_bridge st
+
+theorem file_ok (uid owner : Nat) (st : FStat) :
+    fileOk uid owner st = true ↔
+      (Gen.Fn.Mod.mod_file_isreg (toC st) = some false ∧ Gen.Fn.Mod.mod_file_owner uid (toC st) owner = some false ∧
+       Gen.Fn.Mod.mod_file_mode (toC st) = some false) :=
+  file_ok_bridge uid owner st
+
+end mod2
+
+section hostlist2
+open PdshVerif.Hostlist PdshVerif.Gen.Fn.Hostlist PdshVerif.Bridge.Hostlist
+
+theorem parse_range_order (lo hi : Nat) : Gen.Fn.Hostlist.parse_range_order (rangeC lo hi) = some (decide (lo > hi)) :=
+  parse_range_order_bridge lo hi
+
+theorem parse_range_toobig (cfg : Cfg) (hcfg : cfg.fixUlongMax = PdshVerif.Gen.FIX_D15_ULONGMAX)
+    (lo hi : Nat) (hle : lo ≤ hi) (hhi : hi < U64) :
+    Gen.Fn.Hostlist.parse_range_toobig (rangeC lo hi) = some (rangeTooBig lo hi || ulongMaxRejected cfg hi) :=
+  parse_range_toobig_bridge cfg hcfg lo hi hle hhi
+
+theorem hn_within_final (r : HRange) (hn : Hostname) (hr : InC r) (hb : ∀ c ∈ hn.pre, c.toNat < 256) :
+    Gen.Fn.Hostlist.hn_within_final (r.pre.length : Int) (hn.pre.length : Int) (hnC hn) (toC r) = some (hnMatch r hn) :=
+  hn_within_final_bridge r hn hr hb
+
+end hostlist2
+
+section opt
+open PdshVerif.Bridge.Opt
+
+theorem string_to_int (fx : PdshVerif.Opt.Fixes) (h5 : fx.d5 = true) (e0 : Int) (s : List Char)
+    (hb : ∀ c ∈ s, c.toNat % 256 ≠ 0) (p2 : Int) :
+    ∃ e', Gen.Fn.Opt.string_to_int e0 s p2 =
+      some (match PdshVerif.Opt.stringToInt fx s with | none => ((-1 : Int), p2, e') | some v => ((0 : Int), v, e')) :=
+  string_to_int_bridge fx h5 e0 s hb p2
+
+end opt
+
+section wcoll
+open PdshVerif.Bridge.Wcoll
+
+theorem piece_continues (buf : List Char) (hb : ∀ c ∈ buf, c.toNat < 256) :
+    Gen.Fn.Wcoll.piece_continues buf = some (!buf.contains '\n') :=
+  piece_continues_bridge buf hb
+
+end wcoll
+
+section pcp
+open PdshVerif.Pcp PdshVerif.Bridge.PcpServer
+
+theorem sink_name_bad (n : List UInt8) : Gen.Fn.PcpServer.sink_name_bad (cstr n) = some (!narrowNameOk n) :=
+  sink_name_bad_bridge n
+
+theorem sink_mode_digit_bad (s : List UInt8) :
+    Gen.Fn.PcpServer.sink_mode_digit_bad (cstr s) =
+      some (match s.head? with | some b => decide (b.toNat < 48 ∨ b.toNat > 55) | none => true) :=
+  sink_mode_digit_bad_bridge s
+
+theorem sink_read_failed (j : Int) : Gen.Fn.PcpServer.sink_read_failed j = some (decide (j ≤ 0)) :=
+  sink_read_failed_bridge j
+
+end pcp
 
 end PdshVerif.Props.Bridge
